@@ -344,12 +344,12 @@ def fill_to_brim():
     return n
 
 
-def expected_outcome(spec, entry, label, inspect_lines=False, need_wp=False, cfg=None, fine=False, warm=False):
+def expected_outcome(spec, entry, label, inspect_lines=False, need_wp=False, cfg=None, fine=False, warm=False, cold=False):
     """(outcome, steps, write points) of the call executed alone, under a
     one-thread scheduler, on a fresh twin world.  Memoised per world source text
     (it is a pure function of it).  Write points = local steps at which shared
     state changed, discovered by diffing (no line numbers are hard-coded)."""
-    key = (spec['source'], entry, label, inspect_lines, fine, warm)
+    key = (spec['source'], entry, label, inspect_lines, fine, warm, cold)
     r = _TWIN_CACHE.get(key)
     if r is not None and (r[2] is not None or not need_wp):
         return r
@@ -358,6 +358,8 @@ def expected_outcome(spec, entry, label, inspect_lines=False, need_wp=False, cfg
     from sim import sutstate
     iso = sutstate.isolated()
     iso.__enter__()
+    if cold:
+        sutstate.restore_import()      # the measured call is the first retrieval of the process
     w = worlds.build(spec)
     try:
         objects = snapshot.closure(w)
@@ -449,6 +451,14 @@ class C17Sched(object):
         res = RunResult()
         spec = worlds.draw_spec(ch, cfg['templates'], max_forged=cfg.get('max_forged', 1),
                                 max_depth=cfg.get('max_depth', 2))
+        from sim import sutstate as _sut0
+        cold = ch.chance(4 if _sut0.first_use_state() else 1, 16, 'process-first-use')
+        if cold:
+            # nothing has been retrieved in this process yet: one-time set-up (lazily built
+            # tables, first-use initialisation of module state) happens inside the race
+            from sim import sutstate
+            sutstate.restore_import()
+            res.counters['runs_starting_from_import_state'] += 1
         nthreads = 2 + (1 if ch.chance(cfg.get('three_threads', 1), 8, 'three-threads') else 0)
         labels = sorted(spec['subjects'])
         programs = []
@@ -480,6 +490,8 @@ class C17Sched(object):
         # a tree whose process-wide state was seen to fill up gets far more of these runs
         if ch.chance(cfg.get('prehistory', 1) * (4 if observed_capacity() is not None else 1), 8, 'pre-history'):
             npre = [40, 300, 300][ch.draw(3, 'pre-history-length')]
+        if cold:
+            npre = 0
         brim = None
         if npre and observed_capacity() is not None and ch.chance(1, 2, 'brim-mode'):
             # a bounded container exists: one thread that finds its subject there (or, cold,
@@ -493,7 +505,7 @@ class C17Sched(object):
                 res.counters['runs_in_brim_mode'] += 1
         if brim:
             strategy = 1
-        elif npre:
+        elif npre or cold:
             strategy = [1, 4][ch.draw(2, 'prehistory-strategy')]
         else:
             strategy = ch.weighted(cfg.get('strategy_weights', [3, 3, 2, 2, 3]), 'strategy')
@@ -503,7 +515,7 @@ class C17Sched(object):
             warm_own = brim['reader_warm']
             first = 0
         solo = [[expected_outcome(spec, e, l, inspect_lines, need_wp=(strategy == 1), cfg=cfg, fine=fine,
-                                  warm=(warm_own and ti == 0)) for e, l in prog]
+                                  warm=(warm_own and ti == 0), cold=cold) for e, l in prog]
                 for ti, prog in enumerate(programs)]
         expected = [[r[0] for r in t] for t in solo]
         solo_len = [sum(r[1] for r in t) for t in solo]
@@ -524,7 +536,7 @@ class C17Sched(object):
         if brim and sut_write_points[0]:
             write_points = [sut_write_points[0], []]
             radii = [0, 0, 0, 1]
-        elif npre and any(sut_write_points):
+        elif (npre or cold) and any(sut_write_points):
             # races on process-wide state: aim at the very steps that write to it
             write_points = sut_write_points
             radii = [0, 1, 2, 3]
